@@ -223,3 +223,12 @@ example : Ver.parse "3.16".toList = .err "invalid version" := by decide +kernel
 #print axioms Ver.parse_display
 #print axioms parseU8_iff
 end Peppi
+
+namespace Peppi
+/-- the patch component plays no part in a gate: two versions with the same major and minor pass the same gates -/
+theorem Ver.gte_patch (v : Ver) (p M m : Nat) : ({ v with patch := p } : Ver).gte M m = v.gte M m := rfl
+theorem Ver.lt_patch (v : Ver) (p M m : Nat) : ({ v with patch := p } : Ver).lt M m = v.lt M m := rfl
+/-- … and the comparison is total: exactly one of `gte` / `lt` holds, whatever the threshold (thresholds at the edge of `u8` included) -/
+theorem Ver.gte_or_lt (v : Ver) (M m : Nat) : (v.gte M m = true ∧ v.lt M m = false) ∨ (v.gte M m = false ∧ v.lt M m = true) := by
+  unfold Ver.lt; cases v.gte M m <;> simp
+end Peppi
